@@ -4,5 +4,9 @@ CONSTANTS o1, o2, o3
 KindSSB == (o1 :> "single") @@ (o2 :> "single") @@ (o3 :> "blocking")
 KindSSS == (o1 :> "single") @@ (o2 :> "single") @@ (o3 :> "single")
 FdSame == (o1 :> 1) @@ (o2 :> 1) @@ (o3 :> 2)
+FdAll1 == (o1 :> 1) @@ (o2 :> 1) @@ (o3 :> 1)
+DirR == (o1 :> "r") @@ (o2 :> "r") @@ (o3 :> "r")
+DirRW == (o1 :> "r") @@ (o2 :> "w") @@ (o3 :> "r")
+DirRRW == (o1 :> "r") @@ (o2 :> "r") @@ (o3 :> "w")
 View == <<phase, rc, q, armed, avail, cflag, hasres, jobs, chan, token, drv, mon>>
 ====
